@@ -169,7 +169,7 @@ func main() {
 	}
 	outDir := filepath.Join(*verif, "out", "smt", nonEmpty(*prop, "all"))
 	os.RemoveAll(outDir)
-	discharge(obs, SolverCfg{Timeout: to, OutDir: outDir, Parallel: 32, KeepAll: *keep || cmd == "dump"})
+	discharge(obs, SolverCfg{Timeout: to, OutDir: outDir, Parallel: 32, KeepAll: *keep || cmd == "dump", Thorough: *tier == "thorough"})
 
 	if cmd == "dump" {
 		for _, r := range results {
